@@ -175,3 +175,98 @@ Proof.
       apply spec_tick_pending. left. tauto. }
     apply (Permutation_in _ HP') in H. apply filter_In in H. exact H.
 Qed.
+
+(* periodic closed form on the wheel left ticking *)
+Lemma wheel_periodic_exact w r n k :
+  winv w -> In n (wcontent w) -> alive r n = true -> 0 < nper n ->
+  Z.of_nat (count_occ Z.eq_dec (map fst (snd (N.iter k wtick_acc (w, r, [])))) (nid n)) =
+  pcount (wtt w) (ndl n) (nper n) k.
+Proof.
+  intros Hi Hn Ha Hper.
+  set (P := filter (alive r) (wcontent w)).
+  assert (H0 : racc (wcur w - wtt w) (w, r, []) (wtt w, P, r, [])).
+  { unfold racc. split; [exact Hi|]. split; [reflexivity|]. split; [lia|]. split; [reflexivity|].
+    split; [reflexivity|apply deq_refl]. }
+  pose proof (racc_iter _ k _ _ H0) as H1.
+  assert (HndP : NoDup (map nid P)) by (apply NoDup_map_filter; destruct Hi as [_ [_ [H _]]]; exact H).
+  assert (HinP : In n P) by (apply filter_In; tauto).
+  assert (Hdl : wtt w < ndl n).
+  { destruct Hi as [_ [_ [_ Hp]]]. unfold per_ok in Hp. rewrite Forall_forall in Hp. apply Hp; assumption. }
+  pose proof (spec_periodic_exact (wtt w) n k P r Hper Hdl HndP HinP) as Hs.
+  destruct (N.iter k wtick_acc (w, r, [])) as [[w' r'] o].
+  destruct (N.iter k ticks_acc (wtt w, P, r, [])) as [[[t P'] r2] o'].
+  unfold racc in H1. destruct H1 as [_ [_ [_ [_ [_ [Hperm _]]]]]]. cbn [snd] in *.
+  rewrite <- Hs. f_equal. apply Permutation_count_occ. apply Permutation_map. exact Hperm.
+Qed.
+
+(* RunEvery(p) accepted at tick time tt0: deliveries during the ticks tt0+p, tt0+2p, ... *)
+Lemma wheel_every_exact w r id p k :
+  winv w -> ~ In id (map nid (wcontent w)) -> mem id r = true -> 0 < p ->
+  Z.of_nat (count_occ Z.eq_dec
+    (map fst (snd (wupdate (add_node w (mkNode id (wtt w + p) p)) r (wtt w + Z.of_N k)))) id) =
+  Z.of_N k / p.
+Proof.
+  intros Hi Hf Ha Hp. set (n := mkNode id (wtt w + p) p).
+  assert (Hi1 : winv (add_node w n)) by (apply add_node_inv; [exact Hi|cbn; lia|cbn; lia|exact Hf]).
+  unfold wupdate. rewrite add_node_eq. cbn [wtt]. replace (wtt w + Z.of_N k - wtt w) with (Z.of_N k) by lia.
+  rewrite N2Z.id. rewrite <- add_node_eq.
+  pose proof (wheel_periodic_exact (add_node w n) r n k Hi1) as H.
+  rewrite wcontent_add in H. specialize (H ltac:(apply in_app_iff; right; left; reflexivity) Ha Hp).
+  change (nid n) with id in H. rewrite H. rewrite add_node_eq. cbn [wtt ndl nper n]. unfold pcount.
+  destruct (Z.ltb_spec (wtt w + Z.of_N k) (wtt w + p)) as [Hlt|Hge].
+  - symmetry. apply Z.div_small. lia.
+  - replace (wtt w + Z.of_N k - (wtt w + p)) with (Z.of_N k + (-1) * p) by lia.
+    rewrite Z.div_add by lia. lia.
+Qed.
+
+(* the heap's tick(now): what is due is delivered; a periodic timer is re-armed at now +
+   period (so it is delivered again on the first tick at or after one period past this
+   one); what is not due stays *)
+Lemma heap_tick_due h r now n :
+  NoDup (map nid h) -> In n h -> alive r n = true -> ndl n <= now ->
+  let '(h', r', o) := htick h r now in
+  In (deliv_of n) o /\
+  (periodic n = true -> In (rearm now n) h' /\ alive r' n = true) /\
+  (periodic n = false -> ~ In (nid n) r').
+Proof.
+  intros Hnd Hn Ha Hd.
+  destruct (htick_refines h r now (filter (alive r) h) Hnd (Permutation_refl _))
+    as [h' [r' [o [P' [o' [E [Es [_ [HP' [Hperm _]]]]]]]]]].
+  rewrite E. assert (HinP : In n (filter (alive r) h)) by (apply filter_In; tauto).
+  split; [|split].
+  - apply (Permutation_in _ (Permutation_sym Hperm)).
+    replace o' with (snd (spec_tick now (filter (alive r) h) r)) by (rewrite Es; reflexivity).
+    apply spec_tick_out. exists n. tauto.
+  - intros Hp. assert (In (rearm now n) P').
+    { replace P' with (fst (fst (spec_tick now (filter (alive r) h) r))) by (rewrite Es; reflexivity).
+      apply spec_tick_pending. right. exists n. tauto. }
+    apply (Permutation_in _ HP') in H. apply filter_In in H. exact H.
+  - intros Hp Hin.
+    replace r' with (snd (fst (spec_tick now (filter (alive r) h) r))) in Hin by (rewrite Es; reflexivity).
+    rewrite spec_tick_refer_eq in Hin. apply filter_In in Hin. destruct Hin as [_ Hneg].
+    apply negb_true_iff in Hneg. apply not_true_iff_false in Hneg. apply Hneg. apply mem_In.
+    apply in_map. apply filter_In. split; [|rewrite Hp; reflexivity].
+    apply in_dsort_2. apply filter_In. split; [exact HinP|]. unfold is_due. lia.
+Qed.
+
+Lemma heap_tick_not_due h r now n :
+  NoDup (map nid h) -> In n h -> alive r n = true -> now < ndl n ->
+  let '(h', r', o) := htick h r now in
+  ~ In (nid n) (map fst o) /\ In n h' /\ alive r' n = true.
+Proof.
+  intros Hnd Hn Ha Hd.
+  destruct (htick_refines h r now (filter (alive r) h) Hnd (Permutation_refl _))
+    as [h' [r' [o [P' [o' [E [Es [_ [HP' [Hperm _]]]]]]]]]].
+  rewrite E. assert (HinP : In n (filter (alive r) h)) by (apply filter_In; tauto).
+  split.
+  - intros Hin. apply in_map_iff in Hin. destruct Hin as [x [Ex Hx]].
+    apply (Permutation_in _ Hperm) in Hx.
+    replace o' with (snd (spec_tick now (filter (alive r) h) r)) in Hx by (rewrite Es; reflexivity).
+    apply spec_tick_out in Hx. destruct Hx as [m [Hm [Hdm ->]]]. cbn in Ex.
+    apply filter_In in Hm. destruct Hm as [Hm _].
+    assert (m = n) by (apply (nodup_ids_inj h); assumption). subst m. lia.
+  - assert (In n P').
+    { replace P' with (fst (fst (spec_tick now (filter (alive r) h) r))) by (rewrite Es; reflexivity).
+      apply spec_tick_pending. left. tauto. }
+    apply (Permutation_in _ HP') in H. apply filter_In in H. exact H.
+Qed.
